@@ -17,7 +17,7 @@ for sd in sorted(os.listdir(V + '/seeded')):
     rows.append((sd, m['breaks_property'], title[:110], ', '.join(files), ', '.join('%s (%s)' % (k, (v[0].split('|', 1)[1][:48] if '|' in v[0] else v[0][:48]) if v else '') for k, v in det.items()), m.get('detected_by_own_property_check')))
 out = ['# Seeded changes', '',
        'Each directory holds `patch.diff` (applies to /repo HEAD with `git -C /repo apply`), `demo.rs` (integration test: fails with the patch, passes without), `notes.md` (the author\'s description) and `meta.json`.',
-       'All of them were written by fresh sub-agents that were given only the text of one property and a scratch worktree of /repo (nothing from /verif). Round 1 (`-A`, `-B`): two changes per property. Round 2 (`-C`): one more per property; those agents were also told the titles of A and B and asked for a change of a different kind in a less obvious place (shared utils, plumbing, derives/trait impls, constants, conversions, Cargo features, cfg). Every one was re-confirmed by `tools/seed_verify.py` in a scratch copy: patch applies, demo passes on the unchanged tree and fails with the patch, `cargo test --lib` still reports 531 passed. `tools/seed_recheck.py all` re-runs all 20 checks against every patch and refreshes `meta.json`.', '',
+       'All of them were written by fresh sub-agents that were given only the text of one property and a scratch worktree of /repo (nothing from /verif). Round 1 (`-A`, `-B`): two changes per property. Round 2 (`-C`): one more per property; those agents were also told the titles of A and B and asked for a change of a different kind in a less obvious place (shared utils, plumbing, derives/trait impls, constants, conversions, Cargo features, cfg). Every one was re-confirmed by `tools/seed_verify.py` in a scratch copy: patch applies, demo passes on the unchanged tree and fails with the patch, `cargo test --lib` still reports 531 passed. `tools/seed_recheck.py all` re-runs all 20 checks against every patch and refreshes `meta.json`. Rounds 3 and 4 (`-D`, `-E`), and rounds 5 and 6 (`-F`, `-G`, taken after the robustness work; the agents saw all earlier titles and were pointed at build-profile, feature-subset, shared-helper, conversion and iterator mechanisms) follow the same protocol; a few demonstrations need a configuration (`--release`, a feature subset), named at the top of their `demo.rs`. Rounds 5 and 6 are discussed in DESIGN.md R3.', '',
        '| seed | breaks | change (author\'s title) | files | reported by (first key) | own property\'s check |', '|---|---|---|---|---|---|']
 for r in rows:
     out.append('| %s | %s | %s | %s | %s | %s |' % (r[0], r[1], r[2].replace('|', '/'), r[3], r[4].replace('|', '/'), 'yes' if r[5] else 'no'))
